@@ -1494,6 +1494,27 @@ func (x *startupSup) coreutilPart(b *strings.Builder) {
 			}
 			return true
 		})
+		// round 6: the early-return form `if C { return … }; s.onFinishOnce.Do(s.onFinish); return …` (the Do is an unconditional
+		// top-level statement behind a top-level `if` that only returns): the callback condition is the negation of C
+		if n == 10 {
+			neg := map[string]string{"ok": "!ok", "left != 0": "left == 0", "left > 0": "left <= 0", "0 != left": "left == 0"}
+			var guards []string
+			doTop := false
+			for _, st := range fd.Body.List {
+				if ifs, ok := st.(*ast.IfStmt); ok && !doTop && ifs.Else == nil && ifs.Init == nil && len(ifs.Body.List) > 0 {
+					if _, isRet := ifs.Body.List[len(ifs.Body.List)-1].(*ast.ReturnStmt); isRet {
+						guards = append(guards, cx.src(ifs.Cond))
+					}
+				}
+				if es, ok := st.(*ast.ExprStmt); ok && cx.src(es.X) == "s.onFinishOnce.Do(s.onFinish)" {
+					doTop = true
+				}
+			}
+			if doTop && len(guards) == 1 && neg[guards[0]] != "" {
+				cond = neg[guards[0]]
+				n = 11
+			}
+		}
 		lean := ""
 		switch {
 		case n != 11:
